@@ -17,7 +17,9 @@ Lines == {
   <<P(0,0), P(4,0), P(2,0), P(2,3), P(2,1), P(5,1)>>,
   <<P(0,0), P(3,4), P(6,0), P(3,1), P(0,0)>>,
   <<P(1,1), P(3,1), P(3,3), P(1,3), P(1,1), P(0,0), P(4,0), P(4,4), P(0,4), P(0,0)>> }
-Dirs == << <<1,0,0>>, <<0,1,0>>, <<-1,0,0>>, <<0,-2,0>>, <<1,1,0>>, <<1,-1,0>>, <<2,1,0>>, <<-1,2,0>>, <<3,4,0>>, <<-4,3,0>>, <<1,3,0>>, <<-3,-1,0>> >>
+Dirs == << <<1,0,0>>, <<0,1,0>>, <<-1,0,0>>, <<0,-2,0>>, <<1,1,0>>, <<1,-1,0>>, <<2,1,0>>, <<-1,2,0>>, <<3,4,0>>, <<-4,3,0>>, <<1,3,0>>, <<-3,-1,0>>,
+          \* nearly parallel to axis-parallel and diagonal edges
+          <<12,1,0>>, <<-1,10,0>>, <<7,6,0>> >>
 Lo(s, a) == CHOOSE m \in {s[k][a] : k \in 1..Len(s)} : \A k \in 1..Len(s) : m <= s[k][a]
 Hi(s, a) == CHOOSE m \in {s[k][a] : k \in 1..Len(s)} : \A k \in 1..Len(s) : m >= s[k][a]
 Origins(s) == {<<x, y, 0>> : x \in (Lo(s, 1) - Margin)..(Hi(s, 1) + Margin), y \in (Lo(s, 2) - Margin)..(Hi(s, 2) + Margin)}
